@@ -31,7 +31,7 @@ TRUSTED = ["Lean 4.33 kernel", "axioms: propext, Classical.choice, Quot.sound on
            "ASan/UBSan (gcc 12) for the memory-safety exploration"]
 
 
-TIMEOUT = {"quick": 300, "thorough": 1500}   # seconds per stream; a hang of the real code is a failure to terminate on a generated case
+TIMEOUT = {"quick": 150, "thorough": 1500}   # seconds per stream; a hang of the real code is a failure to terminate on a generated case
 
 
 class TStream:
